@@ -354,6 +354,8 @@ class Lowerer:
         self.drop_calls = set(self.spec.get('drop_calls', []))
         self.struct_copy_ok = set()
         self.stubs_used = set()
+        self.recorders = {}
+        self.recorder_names = set()
 
     # ---- types
     def ty(self, tnode_or_str):
@@ -575,7 +577,7 @@ class Lowerer:
             except Unsupported as e:
                 # unsupported field types are kept opaque; reading them aborts later
                 lines.append('  /* opaque field %s: %s */' % (fname, e))
-        if not lines:
+        if not any(not l.strip().startswith('/*') for l in lines):
             lines.append('  char _empty;')
         self.rec_fields[t.name] = [f for _, f in fields]
         self.rec_defs[t.name] = 'struct %s {\n%s\n};' % (t.name, '\n'.join(lines))
@@ -707,7 +709,7 @@ class Lowerer:
         (enable_if_t, apply_t, ...) fall back to the type clang gave the call expression"""
         try:
             rt = self.ret_type(f.node)
-            base = rt.to if rt.kind in ('ref', 'ptr') else rt
+            base = rt.to if rt.kind == 'ref' else rt
             if base.kind == 'rec' and base.key not in self.idx.records and not base.key.startswith(
                     ('std::pair<', 'std::array<', 'std::vector<', 'std::atomic<')):
                 raise Unsupported('sugar')
@@ -1745,6 +1747,8 @@ class Lowerer:
             raise Unsupported('linalg function %s %s is not in the fixed table at %s' % (q, d['type']['qualType'], where(e)))
         if q and (q.startswith('linalg::') or q.startswith('std::')) and not Index.has_body(d):
             return self.builtin_call(e, r, obj, args)
+        if not Index.has_body(d) and self.spec.get('record_external_calls'):
+            return self.recording_stub(e, d, q, obj, args)
         if not Index.has_body(d):
             raise Unsupported('call to %s which has no body in this TU (add a stub with an assumed contract) at %s' % (q, where(e)))
         if d['id'] in self.idx.pattern:
@@ -1763,6 +1767,68 @@ class Lowerer:
         if rt is not None and rt.kind == 'ref':
             return '(*%s)' % txt
         return txt
+
+    def recording_stub(self, e, d, q, obj, args):
+        """C binding units: a call to a C++ API function defined outside this TU becomes a generated
+        stub that records every argument under the callee's own parameter name (from the C++ header)"""
+        name = d.get('name')
+        base = 'rec_' + mangle(name if not name.startswith('operator') else 'op')
+        pds = self.params_of(d)
+        key = d['id']
+        if key not in self.recorders:
+            cname = base
+            k = 2
+            while cname in self.recorder_names:
+                cname = '%s_%d' % (base, k)
+                k += 1
+            self.recorder_names.add(cname)
+            rt = self.ty(e['type'])
+            is_ref = self.is_lvalue(e)
+            rct = self.cty(Ty('ptr', to=rt) if is_ref else rt) if not (rt.kind == 'b' and rt.name == 'void') else 'void'
+            gl, ps, body = [], [], ['ghost_%s_calls++;' % cname]
+            gl.append('int ghost_%s_calls;' % cname)
+            if obj is not None:
+                gl.append('void* ghost_%s_self;' % cname)
+                ps.append('void* self')
+                body.append('ghost_%s_self = self;' % cname)
+            for i, pd in enumerate(pds):
+                pt = self.ty(pd['type'])
+                pn = pd.get('name') or ('arg%d' % i)
+                if pt.kind == 'ref':
+                    tt = pt.to
+                    if tt.kind == 'rec' and not self.rec_fields.get(tt.name):
+                        try:
+                            self.need_record(tt)
+                        except Unsupported:
+                            pass
+                    import lower_ext as _le
+                    opaque = tt.kind == 'rec' and not _le.vec_info(tt)   # identity for objects, value for plain vectors
+                    ps.append(self.cdecl(Ty('ptr', to=tt), pn))
+                    if opaque:
+                        gl.append('void* ghost_%s_%s;' % (cname, pn))
+                        body.append('ghost_%s_%s = (void*)%s;' % (cname, pn, pn))
+                    else:
+                        gl.append('%s;' % self.cdecl(tt, 'ghost_%s_%s' % (cname, pn)))
+                        body.append('ghost_%s_%s = *%s;' % (cname, pn, pn))
+                else:
+                    ps.append(self.cdecl(pt, pn))
+                    gl.append('%s;' % self.cdecl(pt, 'ghost_%s_%s' % (cname, pn)))
+                    body.append('ghost_%s_%s = %s;' % (cname, pn, pn))
+            if rct != 'void':
+                if is_ref:
+                    body.append('static %s r; return &r;' % self.cty(rt))
+                else:
+                    body.append('%s r; return r;' % rct)
+            text = '\n'.join(gl) + '\n%s %s(%s) { %s }' % (rct, cname, ', '.join(ps) or 'void', ' '.join(body))
+            self.helper(cname, text)
+            self.recorders[key] = (cname, is_ref)
+            self.note('external C++ API call %s -> recording stub %s(%s) (arguments stored under the C++ parameter names; result arbitrary)' % (q, cname, ', '.join(p.get('name', '?') for p in pds)))
+        cname, is_ref = self.recorders[key]
+        a = self.args_for(d, args)
+        if obj is not None:
+            a = ['(void*)' + obj] + a
+        txt = '%s(%s)' % (cname, ', '.join(a))
+        return '(*%s)' % txt if is_ref else txt
 
     def stub_call(self, e, key, d, r, obj, args):
         st = self.stubs[key]
@@ -1955,6 +2021,23 @@ class Lowerer:
         et = t.to
         ct = self.cty(et)
         inits = [c for c in e.get('inner', []) if isinstance(c, dict) and c.get('kind')]
+        if e.get('isPlacement'):
+            # new (mem) T(init): construct in the caller-supplied storage; the hook lets a spec observe `mem`
+            if len(inits) < 1:
+                raise Unsupported('placement new shape at %s' % where(e))
+            # clang lists the constructor expression first, then the placement argument(s)
+            place = inits[-1]
+            init = inits[0] if len(inits) > 1 else None
+            if init is not None and self.strip(init).get('kind') == 'CXXConstructExpr' and not self.strip(init).get('inner'):
+                init = None   # default construction: storage contents left arbitrary
+            self.note('placement new lowered to PLACEMENT_NEW_HOOK(mem) + in-place initialisation')
+            pm = '((%s*)PLACEMENT_NEW_HOOK(%s))' % (ct, self.expr(place))
+            if init is None:
+                return pm
+            f = self.cur
+            name = '__tmp%d' % len(f.tmps)
+            f.tmps.append(self.cdecl(t, name))
+            return '(%s = %s, *%s = %s, %s)' % (name, pm, name, self.expr(init), name)
         h = self.helper('cxx_new_%s' % mangle(ct),
                         'static inline %s* cxx_new_%s(%s v) { %s* p = (%s*)malloc(sizeof(%s)); __CPROVER_assume(p != 0); *p = v; return p; }'
                         % (ct, mangle(ct), ct, ct, ct, ct))
